@@ -40,6 +40,9 @@ def _cfg(commit: bool, tag: bool, push: bool, pre: str = "", post: str = "", sco
 # ---------------------------------------------------------------------------------------------
 # L1: flag/config resolution
 
+TAG_ARGS = [None, "beta", "gamma"]
+
+
 def _spec_options(c_commit, c_tag, c_push, f_commit, f_tag, f_push):
     """README: flags override the config; tag and push need a commit. Returns None when contradictory."""
     commit = c_commit if f_commit is None else f_commit
@@ -170,11 +173,14 @@ def update_skeleton(dry: bool, allow_dirty: bool, ignore_vcs_tag: bool, fetch: b
                     has_set_version: bool, has_candidate: bool, gate_ok: bool,
                     c_commit: bool, c_tag: bool, c_push: bool,
                     f_commit: typ.Optional[bool], f_tag: typ.Optional[bool], f_push: typ.Optional[bool],
-                    scope: int, cli_msg: bool) -> bool:
+                    scope: int, cli_msg: bool, tag_i: int = 0, has_date: bool = False, pin_date: bool = True) -> bool:
     """
     pre: (c_commit or not c_tag) and (c_commit or not c_push)
-    pre: 0 <= scope <= 2
+    pre: 0 <= scope <= 2 and 0 <= tag_i <= 2
     pre: fx("dry", dry) and fx("set", has_set_version) and fx("ign", ignore_vcs_tag) and fx("gate", gate_ok)
+    pre: FIX.get("validation", False) or (tag_i == 0 and not has_date and pin_date)
+    pre: fx("f_commit", f_commit) and fx("f_tag", f_tag) and fx("f_push", f_push) and fx("c_commit", c_commit) and fx("c_tag", c_tag) and fx("c_push", c_push)
+    pre: fx("allow_dirty", allow_dirty) and fx("fetch", fetch) and fx("verbose2", verbose2) and fx("cli_msg", cli_msg) and fx("scope", scope)
     post: _
     """
     log: typ.List[tuple] = []
@@ -217,7 +223,8 @@ def update_skeleton(dry: bool, allow_dirty: bool, ignore_vcs_tag: bool, fetch: b
         try:
             cli.update.callback(
                 dry=dry, allow_dirty=allow_dirty, ignore_vcs_tag=ignore_vcs_tag, fetch=fetch, verbose=2 if verbose2 else 0,
-                major=False, minor=True, patch=False, tag=None, tag_num=False, pin_increments=False, pin_date=True, date=None,
+                major=False, minor=True, patch=False, tag=TAG_ARGS[tag_i], tag_num=False, pin_increments=False, pin_date=pin_date,
+                date="2020-10-15" if has_date else None,
                 set_version="1.4.0" if has_set_version else None,
                 commit_message="release NEW (was OLD)" if cli_msg else None, tag_message=None,
                 commit=f_commit, tag_commit=f_tag, push=f_push, tag_scope=None, pre_commit_hook=None, post_commit_hook=None,
@@ -230,6 +237,11 @@ def update_skeleton(dry: bool, allow_dirty: bool, ignore_vcs_tag: bool, fetch: b
 
     opts = _spec_options(c_commit, c_tag, c_push, f_commit, f_tag, f_push)
     names = [x[0] for x in log]
+    if tag_i == 2 or (has_date and pin_date):
+        # an invalid --tag value, or --date together with --pin-date: refused before the configuration is even read
+        return code is not None and code != 0 and log == []
+    import datetime as _dt
+    maybe_date = _dt.date(2020, 10, 15) if has_date else None
     if opts is None:
         # contradictory: rejected before anything else happens
         return code is not None and code != 0 and names == ["config.init"]
@@ -241,7 +253,7 @@ def update_skeleton(dry: bool, allow_dirty: bool, ignore_vcs_tag: bool, fetch: b
     if has_set_version:
         candidate = "1.4.0"
     else:
-        want.append(("incr", old, "MAJOR.MINOR.PATCH", False, True, False, None, False, False, True, None))
+        want.append(("incr", old, "MAJOR.MINOR.PATCH", False, True, False, TAG_ARGS[tag_i], False, False, pin_date, maybe_date))
         candidate = "1.3.0" if has_candidate else None
     if candidate is None:
         return code is not None and code != 0 and log == want
